@@ -68,6 +68,9 @@ typedef struct {
   // For #line directive
   char *display_name;
   int line_delta;
+
+  // Nesting level of #include; 0 for the main file
+  int include_depth;
 } File;
 
 // Token type
